@@ -1385,6 +1385,35 @@ def run(index, rep, tier):
                                   "%s uses `%s`, but `%s` is an Annotation (bound from `%s`) and Annotation has no attribute `%s` - the stored object is `%s.value`; the line raises AttributeError when an annotation of that name already exists, i.e. on the second read into the same data set" % (fi.qualname, norm(x), x.value.id, norm(names[x.value.id][0].value)[:60], x.attr, x.value.id))
         rep.floor("R20.19", "attribute uses on annotations found by name", 1, n19)
 
+    # ---- R20.20 a block without a TITLE has no label to fold
+    with rep.section("R20.20"):
+        rep.rule("R20.20", "a block without a TITLE has no label to fold: in the NEXUS reader every `<x>.label.upper()` (or other string method on a label) is reachable only on a path that has established `<x>.label is not None`, as _get_taxon_namespace does - a LINK to a title while an untitled block of that kind exists otherwise raises AttributeError instead of the reader's UndefinedBlockError")
+        n20 = 0
+        for fi in index.functions_in_module("dendropy.dataio.nexusreader"):
+            g = None
+            for c in calls_in(fi.node):
+                if isinstance(c.func, ast.Attribute) and c.func.attr in ("upper", "lower", "strip", "casefold", "startswith", "endswith", "split", "replace") and isinstance(c.func.value, ast.Attribute) and c.func.value.attr == "label":
+                    x = norm(c.func.value)
+                    n20 += 1
+                    g = g or cfg_of(fi)
+                    nd = node_of_ast(g, c)
+                    if nd is None:
+                        raise AnalysisError("R20.20: %s: `%s` not located in the flow graph" % (fi.qualname, norm(c)))
+
+                    def unknown(s, l, d, x=x):
+                        if s.kind == "test" and isinstance(s.ast, ast.Compare) and len(s.ast.ops) == 1 and norm(s.ast.left) == x and is_none(s.ast.comparators[0]):
+                            if isinstance(s.ast.ops[0], ast.IsNot):
+                                return l != "t"
+                            if isinstance(s.ast.ops[0], ast.Is):
+                                return l != "f"
+                        if s.kind == "test" and norm(s.ast) == x:
+                            return l != "t"
+                        return True
+                    seen = g.reach([g.entry], follow_exc=False, edge_ok=unknown)
+                    rep.check(nd not in seen, "R20.20", fi.qualname, "`%s` without `%s is not None`" % (norm(c), x), fn_where(fi, c), "%s: %s only for a label that is set" % (fi.name, norm(c)),
+                              "%s evaluates `%s` on a path that has not established `%s is not None`: a CHARACTERS / TREES block without a TITLE statement has the label None, so a `LINK ... = <title>` (or a corrupted TITLE keyword) makes the reader fail with AttributeError: 'NoneType' object has no attribute '%s' instead of its own UndefinedBlockError" % (fi.qualname, norm(c), x, c.func.attr))
+        rep.floor("R20.20", "string methods applied to block labels", 3, n20)
+
 
 def _branch_calls_raiser(cfg, n):
     for lab, t in n.succ:
